@@ -13,8 +13,10 @@ def run(chk, only=None):
     nmax, Hmax = (2, 3) if quick else (3, 3)
     jobs = [j for j in hj_run.jobs_one(hj_run.CLAUSES_C03, nmax, Hmax, 600 if quick else 3000) if j[4] not in ('add_jumper',)]
     jobs += hj_run.jobs_jumpoff(hj_run.CLAUSES_C03 + ['jumpoff-result'], nmax, Hmax, 600 if quick else 3000)
+    if nmax < 3:
+        jobs += hj_run.jobs_jumpoff_three(hj_run.CLAUSES_C03 + ['jumpoff-result'], 600)
     if only:
-        jobs = [j for j in jobs if only in '%s %s' % (j[4], j[5])]
+        jobs = [j for j in jobs if only in '%s %s' % (j[4], j[5]) or only in repr(j)]
     hj_run.common_evidence(chk, nmax, Hmax)
     chk.bounds['clauses'] = ('best == greatest height cleared on the card (every post-state); places == countback (greatest height, failures at it, failures up to it; ties share; '
                              'no clearance -> unplaced) whenever the post-state is won / finished / drawn / jumpoff; finished => at most one first place')
